@@ -35,6 +35,7 @@ struct Obs {
     uint64_t h = 0;         // fingerprint of what the library returned
     long nodes = -1;        // getNodeCount of the result (if any)
     long edges = -1;
+    uint64_t shape = 0;     // hash of the result's graph up to renaming of node handles
 };
 
 enum Outcome {
@@ -118,6 +119,9 @@ struct FileSlot {
     std::vector<int> lvl2var;   // order of the writing forest
     std::vector<Table> roots;   // model twins, in order
     std::vector<bool> oracle;
+    int epoch = 0;              // library initialisations seen when written
+    unsigned writer_fid = 0;    // identifier of the writing forest
+    int writer_slot = -1;
 };
 
 struct Stats {
@@ -185,6 +189,7 @@ class World {
         std::vector<FileSlot*> files;
         std::vector<Hoard*> hoards;
         bool lib_running = false;
+        int lib_epoch = 0;              // number of cleanup()/initialize() restarts so far
         unsigned max_fid_seen = 0;
 
     // ---------------- life cycle ----------------
@@ -242,7 +247,8 @@ class World {
     // ---------------- step interpreter ----------------
     public:
         void exec(const Step &s);
-        void note(int outcome, uint64_t h = 0, long nodes = -1, long edges = -1);
+        void note(int outcome, uint64_t h = 0, long nodes = -1, long edges = -1, uint64_t shape = 0);
+        uint64_t shapeHash(const ForRT &F, const MEDDLY::dd_edge &e);
 
         // handlers (world_ops.cc)
         void opMkConst(const Step &s);
@@ -278,6 +284,7 @@ class World {
         void opSatPart(const Step &s);
         void opReorder(const Step &s);
         void opIO(const Step &s);
+        void opIORead(const Step &s);
         void opIndexSet(const Step &s);
         void opBigCard(const Step &s);
         void opMisuse(const Step &s);
